@@ -411,7 +411,7 @@ pub fn votor_forwards_bundle(h: &PoolHarness, ev_slot: u64, certs: &[Cert], vote
             let mark = a2a.log.lock().unwrap().len();
             let _ = pool_tx.send(bundle).await;
             for _ in 0..10_000 {
-                if pool_tx.capacity() == max {
+                if pool_tx.capacity() == max || task.is_finished() {
                     break;
                 }
                 tokio::task::yield_now().await;
@@ -420,21 +420,31 @@ pub fn votor_forwards_bundle(h: &PoolHarness, ev_slot: u64, certs: &[Cert], vote
                 tokio::task::yield_now().await;
             }
             if task.is_finished() {
-                return Err(());
+                // the voting task survived everything the pool emitted before and died on the bundle
+                let sent: Vec<Vec<u8>> = a2a.log.lock().unwrap()[mark..].to_vec();
+                return Ok((sent, true));
             }
             let sent: Vec<Vec<u8>> = a2a.log.lock().unwrap()[mark..].to_vec();
             task.abort();
-            Ok(sent)
+            Ok((sent, false))
         })
     }));
-    let sent = match res {
+    let (sent, died_on_bundle) = match res {
         Ok(Ok(s)) => s,
-        Ok(Err(())) => return Err(()),
+        Ok(Err(())) => {
+            let _ = kernel::take_panics();
+            return Err(());
+        }
         Err(_) => {
             let _ = kernel::take_panics();
             return Err(());
         }
     };
+    if died_on_bundle {
+        let ps = kernel::take_panics();
+        let what = ps.last().map_or("the task ended".to_string(), |p| format!("{} @ {}", p.message, p.location));
+        return Ok(Some(format!("anything more: the voting task died while handling the bundle ({what}), after {} broadcasts", sent.len())));
+    }
     let mut pool: Vec<Vec<u8>> = sent;
     for c in certs {
         let b = wincode::serialize(&ConsensusMessage::Cert(c.clone())).expect("ser");
